@@ -91,6 +91,19 @@ def saturate(ip, rounds: int = 2) -> None:
                     add_index(ip, sk)
                     p.assume(z3.Or(z3.Not(z3.And(i >= 0, i < n)), S.PSUM(arr, n) == z3.Select(arr, i),
                                    z3.And(sk >= 0, sk < n, sk != i, z3.Select(arr, sk) != 0)))
+        for arr, n, elem, origin in arrays:
+            if origin != "spec":
+                continue
+            li = list(s.loop_idx)
+            for a_ in range(len(li)):
+                for b_ in range(a_ + 1, len(li)):
+                    i, j = li[a_], li[b_]
+                    if _once(ip, f"pair:{arr}:{n}:{i}:{j}"):        # lean: psum_pair (two applications of sum_eq_single)
+                        sk = sym.fresh("sk_pair", I)
+                        add_index(ip, sk)
+                        p.assume(z3.Or(z3.Not(z3.And(i >= 0, i < n, j >= 0, j < n, i != j)),
+                                       S.PSUM(arr, n) == z3.Select(arr, i) + z3.Select(arr, j),
+                                       z3.And(sk >= 0, sk < n, sk != i, sk != j, z3.Select(arr, sk) != 0)))
         spec_arrays = [a for a in arrays if a[3] == "spec"]
         code_arrays = [a for a in arrays if a[3] == "code"]
         for ca, cn, _ce, _ in code_arrays:
